@@ -43,7 +43,7 @@ set_option maxHeartbeats 1000000 in
 iteration — has lowered the measure or ended the input** -/
 theorem foldBody_ok (f : FS) (hf : FInv f) : ∃ st, foldBody f = .ok st ∧ BodyOK f st := by
   unfold foldBody
-  obtain ⟨f1, h1, hf1, hev1, hd1⟩ := foldSpecial_ok' f hf
+  obtain ⟨f1, h1, hf1, hev1, hd1, _⟩ := foldSpecial_ok' f hf
   have hi1 := hev1.1
   have hm1 : f1.more = f.more := hev1.2.2.2.2.1
   have hx1 : XInv f → XInv f1 := fun h => xinv_evol hev1 h
